@@ -127,6 +127,17 @@ class ExternalOptimizer(Optimizer):
                 with contextlib.suppress(subprocess.TimeoutExpired):
                     process.wait(_PROCESS_TIMEOUT)
 
+                # The optimizer process ended: a pending exception could not be
+                # raised yet, and an abnormal exit is an error, not a completed run:
+                if exception is not None:
+                    raise exception
+                if process.returncode:
+                    msg = (
+                        "External optimizer process terminated abnormally "
+                        f"(exit code {process.returncode})"
+                    )
+                    raise RuntimeError(msg)
+
     @property
     def allow_nan(self) -> bool:
         """Whether NaN is allowed.
